@@ -405,6 +405,65 @@ def hstack(A, B):
     return MM(tc, A.m, A.n + B.n, list(A.v) + list(B.v))
 
 
+def blocks(cols, tc=None, size=None):
+    """matrix([[B11, B21, ...], [B12, ...], ...][, size][, tc]): a list of block columns; numbers are
+    1x1 blocks; all blocks of a block column have the same number of columns, all block columns the
+    same number of rows"""
+    t = 'i'
+    norm = []
+    for col in cols:
+        c2 = []
+        for b in col:
+            if not isinstance(b, MM):
+                b = MM(tcnum(b), 1, 1, [b])
+            t = promote(t, b.tc)
+            c2.append(b)
+        norm.append(c2)
+    if tc is None:
+        tc = t
+    if ORDER[t] > ORDER[tc]:
+        raise Refuse('TypeError', 'illegal type conversion')
+    out = []
+    rows = None
+    ncols = 0
+    for col in norm:
+        w = col[0].n
+        if any(b.n != w for b in col):
+            raise Refuse('TypeError', 'incompatible dimensions of subblocks')
+        h = sum(b.m for b in col)
+        if rows is None:
+            rows = h
+        elif h != rows:
+            raise Refuse('TypeError', 'incompatible dimensions of subblocks')
+        for j in range(w):
+            for b in col:
+                out += [b.get(i, j) for i in range(b.m)]
+        ncols += w
+    if size is not None:
+        if size[0] < 0 or size[1] < 0 or size[0] * size[1] != len(out):
+            raise Refuse('TypeError', 'wrong matrix dimensions')
+        rows, ncols = size
+    return MM(tc, rows, ncols, out)
+
+
+def fromnum(x, size=None, tc=None):
+    """matrix(number[, (m, n)][, tc]): a 1x1 matrix, or an m x n matrix filled with the number"""
+    t = tcnum(x)
+    if tc is None:
+        tc = t
+    if ORDER[t] > ORDER[tc]:
+        raise Refuse('TypeError', 'cannot cast')
+    m, n = (1, 1) if size is None else size
+    if m < 0 or n < 0:
+        raise Refuse('TypeError', 'dimensions must be non-negative')
+    return MM(tc, m, n, [x] * (m * n))
+
+
+def recast(A, size, tc):
+    """matrix(A, (m, n), tc)"""
+    return reshape(convert(A, tc), size[0], size[1])
+
+
 def fromlist(vals, m, n, tc):
     """matrix(list, (m, n)[, tc])"""
     t = 'i'
